@@ -206,6 +206,32 @@ func vh_C20_usermap_race() {
 	verifReach("end")
 }
 
+// ... and so is a validation concurrent with several reloads in a row: a map a reader may still
+// hold is never written again (no recycling of retired maps)
+// verif: unwind=6 strlen=12 race
+func vh_C20_usermap_race_reloads() {
+	um := vUserMap("al@x.io")
+	verifCSVFile(vEmailsFile, vEmailRecords(), false)
+	email := ndString("email")
+	if ndBool("validate-first") {
+		verifThread(2, func() { _ = um.IsValid(email) })
+		verifThread(1, func() {
+			um.LoadAuthenticatedEmailsFile()
+			um.LoadAuthenticatedEmailsFile()
+			um.LoadAuthenticatedEmailsFile()
+		})
+	} else {
+		verifThread(1, func() {
+			um.LoadAuthenticatedEmailsFile()
+			um.LoadAuthenticatedEmailsFile()
+			um.LoadAuthenticatedEmailsFile()
+		})
+		verifThread(2, func() { _ = um.IsValid(email) })
+	}
+	verifRaceFree("C20.usermap.no-data-race-across-reloads")
+	verifReach("end")
+}
+
 // the operator's constraints come from the URL of the auth-only subrequest; a request body
 // relayed from the client (POST/PUT/PATCH, urlencoded) that repeats a constrained key never
 // widens the allowed set
